@@ -17,7 +17,7 @@
 EXTENDS Eval
 
 ErrV(c) == [t |-> "err", c |-> c]
-ErrD == [t |-> "err", c |-> "other", d |-> TRUE]      \* the depth failure as a value (a macro caught it): it aborts again wherever it becomes a result
+ErrD == [t |-> "err", c |-> "other", d |-> TRUE]      \* the depth failure as a value inside a macro: call_macro turns it back into an abort
 ErrOfHard(h) == IF h.depth THEN ErrD ELSE ErrV(h.c)
 Unk == [t |-> "unknown"]                         \* a value no property determines: poisons the result
 IsErrV(v) == v.t = "err"
@@ -250,7 +250,9 @@ Step1(prog, code, pc, stack, env, count, log) ==
                            ELSE LET c == CallFunction(fname, callee.t = "bound", recv, ra.vals, env, ra.log) IN Nx(pc + 1, Append(p.stack, c.v), c.log)
                       ELSE IF fname \in VMacroNames THEN
                            LET c == CallMacro(fname, recv, p.args, prog, env, count, p.log) IN
-                           IF c.k = "hard" THEN c ELSE Nx(pc + 1, Append(p.stack, c.v), c.log)
+                           IF c.k = "hard" THEN c
+                           ELSE IF IsErrV(c.v) /\ "d" \in DOMAIN c.v THEN [k |-> "hard", v |-> [c |-> "other", depth |-> TRUE], log |-> c.log]   \* call_macro: depth aborts
+                           ELSE Nx(pc + 1, Append(p.stack, c.v), c.log)
                       ELSE IF fname \in TypeNames /\ callee.t = "ident" THEN
                            LET ra == ResolveArgs(p.args, 1, prog, env, count, p.log, <<>>) IN
                            IF ra.k = "hard" THEN ra
